@@ -5,7 +5,7 @@ NotOnOrAfter/NotBefore, SessionNotOnOrAfter, response IssueInstant), for every a
 enumerated under a frozen clock; Hypothesis adds random multi-bound combinations.  Oracle: must-reject / must-accept
 sets from the statement, and the session expiry handed to the application."""
 import calendar, re, time
-from harness.runner import Part, Violation
+from harness.runner import Part, Violation, Inconclusive
 from harness import build, spside, clock, world
 
 PROPERTY = 'C04'
@@ -302,9 +302,48 @@ def generated_strategy():
     return st.sampled_from(ALLOWANCES).flatmap(build_case)
 
 
+# ------------------------------------------------------------------ the same bounds at two moments
+def later_cases():
+    out = []
+    for s in (0, 180):
+        for kind in ('same-sp', 'other-sp-smaller-allowance'):
+            for gap in (5, 3600):
+                out.append({'s': s, 'kind': kind, 'gap': gap})
+    return out
+
+
+def run_later(case):
+    """two responses with byte-identical time bounds, the first delivered inside the window and the second after it has closed (to the same SP, or to a second SP of the
+    process that has a smaller allowance): the verdict is taken against the clock at delivery"""
+    now = spside.NOW
+    s = case['s']
+    sp1 = spside.sp_for({'accepted_time_diff': s} if s else {})
+    sp2 = sp1 if case['kind'] == 'same-sp' else spside.sp_for({'accepted_time_diff': 0, 'want_assertions_signed': False})
+    window = 600
+    verdicts = []
+    for n, (sp, t) in enumerate(((sp1, now), (sp2, now + window + (s if sp2 is sp1 else 0) + case['gap']))):
+        clock.set_now(t)
+        r, a = build.standard(now, rid='id-resp-l%d' % n, aid='id-a-l%d' % n)
+        r['issue_instant'] = build.ts(t)
+        a['conditions']['not_before'] = build.ts(now - 60)
+        a['conditions']['not_on_or_after'] = build.ts(now + window)
+        a['subject']['confirmations'][0]['data']['not_on_or_after'] = build.ts(now + window)
+        verdicts.append(spside.deliver(sp, build.render(r, [a], sign_response=1)))
+    clock.set_now(now)
+    if verdicts[0][0] != 'accept':
+        raise Inconclusive('first delivery (inside the window) not accepted: %r' % (verdicts[0][1:],))
+    if verdicts[1][0] == 'accept':
+        raise Violation('accepted-outside-window', 'a response with Conditions / confirmation NotOnOrAfter = T+%d was accepted %d s after that instant (allowance %d) by %s; '
+                        'an earlier response with the same bounds had been accepted inside the window' % (window, (s if sp2 is sp1 else 0) + case['gap'], s if sp2 is sp1 else 0,
+                                                                                                        'the same SP' if sp2 is sp1 else 'another SP of the process'))
+    return 'later|%s|reject' % case['kind'], True
+
+
+
 def parts(tier):
     quick = tier != 'thorough'
     return [
         Part('grid', run, cases=grid, exhaustive=True, mandatory=['reject|cnooa|reject', 'accept|cnooa|accept', 'reject|issue_instant|reject', 'reject|order-scd|reject', 'accept|sess|accept']),
         Part('generated', run, strategy=generated_strategy, examples=1500 if quick else 60000),
+        Part('same-bounds-later', run_later, cases=later_cases, exhaustive=True),
     ]
